@@ -87,14 +87,18 @@ class FairLockImpl:
             raise KeyError(action)
 
     def project(self) -> dict[str, Any]:
-        waiters = list(self.lock._waiters or ())
-        return {
+        out: dict[str, Any] = {
             "locked": bool(self.lock.locked()),
-            "waiters": tuple(ev.owner for ev in waiters),
-            "evset": frozenset(ev.owner for ev in waiters if ev.is_set()),
             "pc": tuple(self.pc[t] for t in sorted(self.pc)),
             "hist": tuple(self.hist),
         }
+        if hasattr(self.lock, "_waiters"):  # internal queue: compared when it exists under this name, otherwise behaviour only
+            waiters = list(self.lock._waiters or ())
+            out["waiters"] = tuple(ev.owner for ev in waiters)
+            out["evset"] = frozenset(ev.owner for ev in waiters if ev.is_set())
+        else:
+            out["evset"] = frozenset(ev.owner for ev in self.backend.events if ev.is_set() and self.pc.get(ev.owner) == "waiting")
+        return out
 
     def close(self) -> None:
         for task in self.tasks.values():
